@@ -6,5 +6,6 @@ B=${2:-/repo/_build}
 T=$(mktemp -d)
 trap 'rm -rf "$T"' EXIT
 SAN=${SAN:-}
-cc $SAN -g -I/repo/hdf/src -I/repo/mfhdf/src -I$B -I$B/hdf/src "$1" -o $T/a.out $B/bin/libmfhdf.a $B/bin/libhdf.a -ljpeg -lz -lm 2>&1 | grep -v warning | head -5 || true
+WR=""; [ -n "$WRAP" ] && WR="-Wl,--wrap=fwrite"
+cc $SAN $WR -g -I/repo/hdf/src -I/repo/mfhdf/src -I$B -I$B/hdf/src "$1" -o $T/a.out $B/bin/libmfhdf.a $B/bin/libhdf.a -ljpeg -lz -lm 2>&1 | grep -v warning | head -5 || true
 cd $T && ./a.out; echo "exit=$?"
